@@ -45,13 +45,14 @@ Qed.
 
 (* ================= white space ================= *)
 (* every piece of the "\n" split TrimLeft'ed and joined *)
-Definition strip_all (s : str) : str := concat (map trim_left (split_byte 10 s)).
+Definition strip_all (s : str) : str := concat (map trim_left_xml (split_byte 10 s)).
 
-Lemma is_ws_space c : is_ws c = true -> is_ascii_space c = true.
-Proof. unfold is_ws, is_ascii_space. lia. Qed.
+Lemma is_ws_space c : is_ws c = true -> is_xml_space c = true.
+Proof. unfold is_ws, is_xml_space. lia. Qed.
+Lemma trim_left_xml_nil : trim_left_xml [] = []. Proof. reflexivity. Qed.
 
-Lemma trim_left_space c r : is_ascii_space c = true -> trim_left (c :: r) = trim_left r.
-Proof. intros H. unfold trim_left. cbn [length trim_left_fuel strip_space1]. rewrite H. reflexivity. Qed.
+Lemma trim_left_space c r : is_xml_space c = true -> trim_left_xml (c :: r) = trim_left_xml r.
+Proof. intros H. cbn [trim_left_xml]. rewrite H. reflexivity. Qed.
 
 Lemma trim_space_nil : trim_space [] = [].
 Proof. reflexivity. Qed.
@@ -74,7 +75,7 @@ Proof.
   intros Hx. unfold strip_all. cbn [split_byte].
   destruct (split_byte 10 s) as [|h t] eqn:E; [exfalso; exact (split_byte_nonnil _ _ E)|].
   destruct (x =? 10) eqn:Ex; cbn [map concat].
-  - rewrite trim_left_nil. reflexivity.
+  - rewrite trim_left_xml_nil. reflexivity.
   - rewrite (trim_left_space x h (is_ws_space x Hx)). reflexivity.
 Qed.
 
@@ -108,13 +109,13 @@ Proof.
   subst c. cbn [forallb]. rewrite Hr. reflexivity.
 Qed.
 
-Lemma strip_all_text_post t w : no_nl t = true -> is_indent w = true -> strip_all (t ++ w) = trim_left t.
+Lemma strip_all_text_post t w : no_nl t = true -> is_indent w = true -> strip_all (t ++ w) = trim_left_xml t.
 Proof.
   intros Ht Hw. apply no_nl_notin in Ht. destruct w as [|c r].
   - rewrite app_nil_r. unfold strip_all. rewrite (split_byte_none 10 t Ht). cbn [map concat]. apply app_nil_r.
   - apply is_indent_cons in Hw. destruct Hw as [Hc Hr]. subst c.
     unfold strip_all. rewrite (split_byte_app 10 t r Ht). cbn [map concat].
-    change (concat (map trim_left (split_byte 10 r))) with (strip_all r).
+    change (concat (map trim_left_xml (split_byte 10 r))) with (strip_all r).
     rewrite (strip_all_ws_nil r Hr). apply app_nil_r.
 Qed.
 
@@ -130,7 +131,7 @@ Qed.
 
 Lemma piece_ok_parts p : piece_ok p = true ->
   is_indent (p_pre p) = true /\ is_indent (p_post p) = true /\ no_nl (p_text p) = true
-  /\ (p_pre p = [] \/ trim_left (p_text p) = p_text p).
+  /\ (p_pre p = [] \/ trim_left_xml (p_text p) = p_text p).
 Proof.
   unfold piece_ok. intros H. apply andb_true_iff in H. destruct H as [H H4].
   apply andb_true_iff in H. destruct H as [H H3]. apply andb_true_iff in H. destruct H as [H1 H2].
@@ -149,7 +150,7 @@ Proof.
     + rewrite app_nil_r. unfold strip_text. rewrite (split_byte_none 10 _ Hn). cbn [map concat]. apply app_nil_r.
     + apply is_indent_cons in H2. destruct H2 as [Hc Hr]. subst c.
       unfold strip_text. rewrite (split_byte_app 10 _ r Hn).
-      change (concat (map trim_left (split_byte 10 r))) with (strip_all r).
+      change (concat (map trim_left_xml (split_byte 10 r))) with (strip_all r).
       rewrite (strip_all_ws_nil r Hr). apply app_nil_r.
   - destruct H4 as [H4|H4]; [discriminate|].
     apply is_indent_cons in H1. destruct H1 as [Hc Hq]. subst c.
@@ -158,7 +159,7 @@ Proof.
 Qed.
 
 (* a piece that starts the paragraph: the same, when its text does not start with white space *)
-Lemma piece_strip_true p : piece_ok p = true -> trim_left (p_text p) = p_text p ->
+Lemma piece_strip_true p : piece_ok p = true -> trim_left_xml (p_text p) = p_text p ->
   strip_text true (piece_str p) = p_text p.
 Proof.
   intros H Ht. apply piece_ok_parts in H. destruct H as (H1 & H2 & H3 & _). unfold piece_str.
@@ -186,11 +187,11 @@ Proof.
 Qed.
 
 Lemma group_ok_GText p : group_ok (GText p) = true ->
-  piece_ok p = true /\ trim_left (p_text p) = p_text p /\ trim_space (p_text p) <> [].
+  piece_ok p = true /\ trim_left_xml (p_text p) = p_text p /\ blank_xml (p_text p) = false.
 Proof.
   cbn [group_ok]. intros H. apply andb_true_iff in H. destruct H as [H H3].
   apply andb_true_iff in H. destruct H as [H1 H2]. apply str_eqb_eq in H2.
-  repeat split; try assumption. intros E. rewrite E in H3. discriminate.
+  repeat split; try assumption. apply negb_true_iff in H3. exact H3.
 Qed.
 
 Lemma group_ok_GSpan w nm al p0 ps : group_ok (GSpan w nm al p0 ps) = true ->
@@ -242,7 +243,7 @@ Lemma items_indent w rest : is_indent w = true -> items_of (map strip_node (text
 Proof.
   intros H. destruct w as [|c r]; [reflexivity|].
   cbn [text_kids map strip_node app]. rewrite (strip_false_indent _ H). cbn [items_of].
-  rewrite trim_space_nil. destruct (items_of rest); reflexivity.
+  change (blank_xml []) with true. destruct (items_of rest); reflexivity.
 Qed.
 
 Lemma item_text_kids s : tt_item_text (map strip_node (text_kids s)) = strip_text false s.
@@ -290,7 +291,7 @@ Proof.
     cbn [items_of]. change (tt_read_attrs []) with (Some no_attrs). rewrite Hr. reflexivity.
   - apply group_ok_GText in Hg. destruct Hg as (H1 & H2 & H3).
     cbn [map strip_node app]. rewrite (piece_strip_false p H1). cbn [items_of]. rewrite Hr.
-    destruct (trim_space (p_text p)) as [|c t] eqn:E; [contradiction|]. reflexivity.
+    rewrite H3. reflexivity.
   - apply group_ok_GSpan in Hg. destruct Hg as (H1 & H2 & H3 & H4 & ta & H5).
     rewrite map_app, <- app_assoc, (items_indent _ _ H1).
     cbn [map strip_node app]. cbn [items_of]. rewrite H5, Hr, (item_text_span p0 ps H3 H4). reflexivity.
